@@ -346,6 +346,9 @@ func TestC06(t *testing.T) {
 	r := rep.New(t, "C06")
 	defer r.Flush()
 	r.Rule("PRNG server option combinations (ping interval/timeout, max payload, transport set, allowUpgrades, allowEIO3, initial packet text/binary/absent, cookie) x 3-5 handshakes per server over polling/JSONP/WebSocket/WebTransport with EIO=4, 3, absent or given twice with different values (must resolve to ONE revision for admission, Protocol() and payload format) and b64; oracle: one connection event and one registry entry per admitted handshake, open packet JSON == configuration (upgrades as a set), initial packet first message of EVERY session with its kind, Protocol() and heartbeat mode per revision, revision 3 refused when disallowed; distinct = option/session signature")
+	// a case that has not ended after a minute of real time (normal: milliseconds) is examined for a
+	// goroutine spinning in library code (rep.Guard)
+	r.Guard(60 * time.Second)
 	n := r.N(2400, 400000)
 	for i := 0; i < n; i++ {
 		if !r.Only(i) {
@@ -354,7 +357,9 @@ func TestC06(t *testing.T) {
 		rng := r.CaseRand(6, i)
 		c := genC06(rng)
 		c.Seed = fmt.Sprintf("seed=%d lane=%d case=%d", r.Seed, r.Lane, i)
+		r.Begin(fmt.Sprint(i), c)
 		key, msg, stats := runC06(c, r)
+		r.End(fmt.Sprint(i))
 		sig := fmt.Sprintf("%d/%d/%d/%v/%v/%v/%s/%v", c.PIms, c.PTms, c.MaxPayload, c.Transports, c.AllowUpg, c.AllowEIO3, c.Initial, c.Cookie)
 		for _, s := range c.Sessions {
 			sig += fmt.Sprintf("|%s%s%v%v", s.Transport[:2], s.EIO, s.B64, s.JSONP)
